@@ -181,6 +181,9 @@ impl Property for C02 {
             gen::arith_template(rng, &mut sc.cmds);
             sc.set_knob("arith", 1);
         }
+        if rng.chance(10) {
+            sc.cmds = gen::goto_machine(rng, false);
+        }
         sc.stdin = gen::gen_stdin(rng, 40);
         let ff = rng.chance(40);
         sc.plan = gen::gen_plan(rng, ff);
